@@ -358,6 +358,15 @@ def gen_range_lists(ctx):
             # overlapping pieces that reach the top bit of the base (carry / overflow sensitive)
             fields.append(mk_field("repm", "arb", 6, [(N - 4, N - 1), (N - 2, N - 1)], access="rw"))
             fields.append(mk_field("repl", "arb", 5, [(0, 2), (1, 2)], access="rw"))
+        # overlapping lists whose lengths add up to exactly the base width / the storage width ("whole register" shortcuts
+        # must not be taken for them: they leave bits uncovered)
+        if N >= 6:
+            a = (N + 1) // 2 + 1
+            fields.append(mk_field("repx", int_kind(N), N, [(0, a - 1), (a - 2, N - 3)], access="rw"))
+            fields.append(mk_field("top2", int_kind(2), 2, [(N - 2, N - 1)], access="rw"))
+            W = storage_of(N)
+            if W != N and W - N <= N and W - N >= 1:
+                fields.append(mk_field("repy", "native", W, [(0, N - 1), (0, W - N - 1)], access="rw"))
         # arrays of lists: stride = span, interleaving stride
         if N >= 8:
             fields.append(mk_field("al", "arb", 2, [(0, 0), (2, 2)], count=2, stride=4))
@@ -389,7 +398,7 @@ def gen_custom(ctx):
         for fs in chunk(fields, 8):
             mk_bf(ctx, N, fs, ["custom-types", "profile"])
     # nested bitfields over native and arbitrary bases
-    for inner_n in [8, 5, 16, 12, 32, 64]:
+    for inner_n in [8, 5, 16, 12, 32, 64, 72, 100, 128]:
         inner = mk_bf(ctx, inner_n, [mk_field("lo", "arb", 3, [(0, 2)]), mk_field("top", "bool", 1, [(inner_n - 1, inner_n - 1)])],
                       ["custom-types", "nested-inner"], debug=True, prefix="N")
         for N in [b for b in all_bases(ctx.tier) if b >= inner_n][:6]:
@@ -505,6 +514,64 @@ def gen_multi(ctx):
                     rs = place_disjoint(rng, N, lens, rng.choice(["asc", "desc", "shuffle"]))
                     fields.append(mk_field("f%d" % i, int_kind(n), n, rs))
             mk_bf(ctx, N, fields, ["multi", "profile"])
+
+
+def gen_mixed(ctx):
+    """every ordered pair of field kinds adjacent in some struct (state carried over from one field to the next inside the
+    generator loop would show as a difference in the second field's accessors)"""
+    rng = ctx.rng
+    e2 = cached_enum(ctx, 2, True)
+    e9 = cached_enum(ctx, 9, False)
+    inner = mk_bf(ctx, 12, [mk_field("lo", "arb", 3, [(0, 2)]), mk_field("top", "bool", 1, [(11, 11)])],
+                  ["custom-types", "nested-inner"], debug=True, prefix="N")
+    makers = {
+        "bool": lambda nm, p: mk_field(nm, "bool", 1, [(p, p)]),
+        "u8": lambda nm, p: mk_field(nm, "native", 8, [(p, p + 7)]),
+        "u16": lambda nm, p: mk_field(nm, "native", 16, [(p, p + 15)]),
+        "u32": lambda nm, p: mk_field(nm, "native", 32, [(p, p + 31)]),
+        "u64": lambda nm, p: mk_field(nm, "native", 64, [(p, p + 63)]),
+        "i8": lambda nm, p: mk_field(nm, "signed", 8, [(p, p + 7)]),
+        "i16": lambda nm, p: mk_field(nm, "signed", 16, [(p, p + 15)]),
+        "i32": lambda nm, p: mk_field(nm, "signed", 32, [(p, p + 31)]),
+        "i64": lambda nm, p: mk_field(nm, "signed", 64, [(p, p + 63)]),
+        "a3": lambda nm, p: mk_field(nm, "arb", 3, [(p, p + 2)]),
+        "a12": lambda nm, p: mk_field(nm, "arb", 12, [(p, p + 11)]),
+        "a33": lambda nm, p: mk_field(nm, "arb", 33, [(p, p + 32)]),
+        "xu4": lambda nm, p: mk_field(nm, "arb", 4, [(p, p + 3)], count=3),
+        "xi8": lambda nm, p: mk_field(nm, "signed", 8, [(p, p + 7)], count=2, stride=9),
+        "lu8": lambda nm, p: mk_field(nm, "native", 8, [(p, p + 2), (p + 10, p + 14)]),
+        "la5": lambda nm, p: mk_field(nm, "arb", 5, [(p + 6, p + 7), (p, p + 2)]),
+        "li16": lambda nm, p: mk_field(nm, "signed", 16, [(p, p + 7), (p + 20, p + 27)]),
+        "en": lambda nm, p: mk_field(nm, "enum", 2, [(p, p + 1)], custom=e2["name"]),
+        "oe": lambda nm, p: mk_field(nm, "optenum", 9, [(p, p + 8)], custom=e9["name"]),
+        "ne": lambda nm, p: mk_field(nm, "nested", 12, [(p, p + 11)], custom=inner["name"]),
+    }
+    kinds = list(makers)
+    todo = [(a, b) for a in kinds for b in kinds]
+    rng.shuffle(todo)
+    todo_set = set(todo)
+    chains = []
+    while todo_set:
+        a, b = next(x for x in todo if x in todo_set)
+        chain = [a, b]
+        todo_set.discard((a, b))
+        while len(chain) < 9:
+            cur = chain[-1]
+            nxt = next((y for (x, y) in todo if x == cur and (x, y) in todo_set), None)
+            if nxt is None:
+                break
+            chain.append(nxt)
+            todo_set.discard((cur, nxt))
+        chains.append(chain)
+    idx = 0
+    for ci, chain in enumerate(chains):
+        N = 128 if ci % 2 == 0 else 100
+        fields = []
+        for k in chain:
+            p = (5 * idx + 3 * ci) % (N - 64 + 1)
+            fields.append(makers[k]("m%d_%s" % (len(fields), k), p))
+            idx += 1
+        mk_bf(ctx, N, fields, ["mixed", "multi", "profile"])
 
 
 def cover_fields(ctx, N, prefix="c"):
@@ -828,6 +895,7 @@ def generate(seed, tier):
     gen_bases(ctx)
     gen_enums(ctx)
     gen_multi(ctx)
+    gen_mixed(ctx)
     gen_builder(ctx)
     gen_access(ctx)
     gen_debug(ctx)
